@@ -1,8 +1,8 @@
-/* C03: sign_extend<ResultT, SrcT>, one instantiation per compilation (-DResultT=.. -DSrcT=.. -DUResultT=.. -DSR=.. -DSS=.. -DUS=..) */
+/* C03: sign_extend<ResultT, SrcT>, one instantiation per compilation (-DResultT=.. -DSrcT=.. -DSPEC_UR=.. -DSR=.. -DSS=.. -DUS=..) */
 #include "contracts/verif.h"
 /* spec: the result is the SrcT-wide two's-complement number widened to ResultT (top bit replicated): (SR)(SS)src */
 ResultT SE_NAME(SrcT src)
-__CPROVER_ensures((UResultT)__CPROVER_return_value == (UResultT)(SR)(SS)src)
+__CPROVER_ensures((SPEC_UR)__CPROVER_return_value == (SPEC_UR)(SR)(SS)src)
 __CPROVER_ensures((US)__CPROVER_return_value == (US)src)
 __CPROVER_assigns();
 #include "x_sign_extend.inc"
